@@ -90,6 +90,12 @@ Inductive supported : obs -> Prop :=
 | S_remove k : supported (ORemove k)
 | S_hasfield k : supported (OHasField k)
 | S_toarray : supported OToArray
+| S_fromarray : supported OFromArray
+| S_pathead : supported OPatHead
+| S_pattail : supported OPatTail
+| S_patfield k : supported (OPatField k)
+| S_patrest k : supported (OPatRest k)
+| S_recfilter q : supported (ORecFilter q)
 | S_call a : a <> AProbe -> supported (OCall a).
 
 Section Rel.
@@ -856,6 +862,53 @@ Section Rel.
     - (apply relR_err; discriminate).
   Qed.
 
+  Lemma access_prim_rel : forall k fs1 fs2, Forall2 FldR fs1 fs2 ->
+    RelR RelT (prim_record_access k fs1) (prim_record_access k fs2).
+  Proof.
+    intros k fs1 fs2 HF. unfold prim_record_access. pose proof (FldR_lookup _ _ k HF) as L.
+    destruct (lookup k fs1) as [[x1 p1]|], (lookup k fs2) as [[x2 p2]|]; try contradiction.
+    - constructor. intros n. apply (L p1 p2 n); apply same_ctrs_refl.
+    - apply relR_err. discriminate.
+  Qed.
+
+  Lemma from_array_rel : forall m e1 e2, Forall2 RelT e1 e2 -> forall a1 a2, Forall2 FldR a1 a2 ->
+    RelC (from_array_go (eval m) e1 a1) (from_array_go (eval m) e2 a2).
+  Proof.
+    intros m. induction 1 as [|x1 x2 l1 l2 H _ IH]; intros a1 a2 HA; cbn [from_array_go].
+    - constructor. now apply RV_rec'.
+    - eapply relR_bind; [apply (H m)|]. intros v1 v2 HV.
+      eapply relR_bind; [apply (as_rec_rel EBlameNeg); [discriminate | exact HV]|]. intros fs1 fs2 HF.
+      assert (is_binding fs1 = is_binding fs2) as ->.
+      { unfold is_binding. rewrite (Forall2_length' _ _ _ HF).
+        rewrite !(has_key_keys _ fs1 fs2 (FldR_keys _ _ HF)). reflexivity. }
+      destruct (negb (is_binding fs2)); [apply relR_err; discriminate|].
+      eapply relR_bind.
+      { eapply relR_bind; [apply access_prim_rel, HF|]. intros t1 t2 HT. apply (HT m). }
+      intros vn1 vn2 HVN. inversion HVN; subst; try (apply relR_err; discriminate).
+      eapply relR_bind; [apply access_prim_rel, HF|]. intros y1 y2 HY.
+      unfold prim_record_insert. rewrite (has_key_keys s _ _ (FldR_keys _ _ HA)).
+      destruct (has_key s a2); [apply relR_err; discriminate|].
+      apply IH. apply Forall2_app; auto. constructor; [|constructor].
+      split; [reflexivity|]. intros q1 q2 n S1 S2. cbn [fst snd] in *.
+      apply same_ctrs_nil in S1, S2. subst. apply HY.
+  Qed.
+
+  Lemma rec_filter_rel : forall m q (b1 b2 : list (string * thunk)),
+    Forall2 (fun x y => fst x = fst y /\ RelT (snd x) (snd y)) b1 b2 ->
+    forall a1 a2, Forall2 FldR a1 a2 ->
+    RelC (rec_filter_go (eval m) q b1 a1) (rec_filter_go (eval m) q b2 a2).
+  Proof.
+    intros m q. induction 1 as [|[n1 x1] [n2 x2] l1 l2 [E HX] _ IH]; intros a1 a2 HA; cbn [rec_filter_go].
+    - constructor. now apply RV_rec'.
+    - cbn [fst snd] in *. subst n2. eapply relR_bind with (RA := eq).
+      + destruct q; cbn [pred2_sem]; try (constructor; reflexivity).
+        eapply relR_bind; [apply (HX m)|]. intros v1 v2 HV.
+        eapply relR_bind; [apply as_num_rel, HV|]. intros z ? <-. now constructor.
+      + intros b ? <-. apply IH. destruct b; auto. apply Forall2_app; auto. constructor; [|constructor].
+        split; [reflexivity|]. intros q1 q2 n S1 S2. cbn [fst snd] in *.
+        apply same_ctrs_nil in S1, S2. subst. apply HX.
+  Qed.
+
   Ltac arr_arg H m e :=
     eapply relR_bind; [apply (H m)|]; intros ?v1 ?v2 ?HV;
     eapply relR_bind; [apply (as_arr_rel e); [discriminate | eassumption]|]; intros [?es1 ?p1] [?es2 ?p2] ?HA;
@@ -986,6 +1039,35 @@ Section Rel.
         rewrite E. apply relT_val. constructor. constructor.
       + split; [reflexivity|]. intros q1 q2 n' S1 S2. cbn [fst snd] in *. apply same_ctrs_nil in S1, S2. subst.
         cbn [tctrs fold_left]. rewrite E. apply access_cong. apply relT_val. constructor. now apply RV_rec'.
+    - (* fromarray *) arr_arg HT m EBlameNeg. apply from_array_rel; [|constructor].
+      eapply ArrR_elems; eauto; apply same_ctrs_refl.
+    - (* pathead *)
+      eapply relR_bind; [apply (HT m)|]. intros v1 v2 HV.
+      inversion HV as [| | |es1 p1 es2 p2 HA| |]; subst; try (apply relR_err; discriminate).
+      pose proof (ArrR_length _ _ _ _ HA) as L.
+      destruct es1, es2; try discriminate; [apply relR_err; discriminate | now apply at_rel].
+    - (* pattail *)
+      eapply relR_bind; [apply (HT m)|]. intros v1 v2 HV.
+      inversion HV as [| | |es1 p1 es2 p2 HA| |]; subst; try (apply relR_err; discriminate).
+      pose proof (ArrR_length _ _ _ _ HA) as L.
+      destruct es1 as [|a1 l1], es2 as [|a2 l2]; try discriminate; [apply relR_err; discriminate|].
+      rewrite L. now apply slice_rel.
+    - (* patfield *)
+      eapply relR_bind; [apply (HT m)|]. intros v1 v2 HV.
+      inversion HV as [| | | |fs1 fs2 HF|]; subst; try (apply relR_err; discriminate).
+      rewrite (has_key_keys k _ _ (FldR_keys _ _ HF)).
+      destruct (has_key k fs2); [|apply relR_err; discriminate].
+      eapply relR_bind; [apply access_prim_rel, HF|]. intros t1' t2' HT'. apply (HT' m).
+    - (* patrest *)
+      eapply relR_bind; [apply (HT m)|]. intros v1 v2 HV.
+      inversion HV as [| | | |fs1 fs2 HF|]; subst; try (apply relR_err; discriminate).
+      rewrite (has_key_keys k _ _ (FldR_keys _ _ HF)).
+      destruct (has_key k fs2) eqn:E; [|apply relR_err; discriminate].
+      unfold prim_record_remove. rewrite (has_key_keys k _ _ (FldR_keys _ _ HF)), E.
+      constructor. apply RV_rec'. now apply swap_remove_rel.
+    - (* recfilter *) rec_arg HT m EBlameNeg. apply rec_filter_rel; [|constructor].
+      eapply Forall2_map2; [apply sort_fields_rel, HF|]. intros f1 f2 [E F]. cbn [fst snd]. split; [exact E|].
+      rewrite E. apply access_cong. apply relT_val. constructor. now apply RV_rec'.
     - (* call *)
       eapply relR_bind; [apply (HT m)|]. intros v1 v2 HV.
       inversion HV; subst; try (apply relR_err; discriminate). apply app_rel; auto. now apply atom_rel.
